@@ -36,6 +36,9 @@ m = {
         {"name": "lean-model+harness", "path": "lean/ + harness/ + check",
          "serves_properties": sorted(p for p in CLAIMS if CLAIMS[p].get("engine", "lean-model+harness") == "lean-model+harness"),
          "kind_free_text": "Lean 4 model (Fc/*.lean), theorems (FcProps/*.lean, lemmas FcLemmas/*.lean), Rust correspondence harness over the real crate in std/alloc/no_std builds, compiled Lean driver comparing traces and evaluating the monitors the theorems are about"},
+        {"name": "lean-autotraits+rustc-probes", "path": "tools/extract_types.py + tools/gen_autotraits.py + lean/FcGen + lean/Fc/AutoTraits.lean + probes/ + tools/c18_runner.py",
+         "serves_properties": sorted(p for p in CLAIMS if CLAIMS[p].get("engine") == "lean-autotraits+rustc-probes"),
+         "kind_free_text": "translator from rustc's macro-expanded source to a generated Lean environment of type declarations, Lean model of auto-trait derivation with theorems over the generated table, rustc probe crate"},
     ],
     "checks": checks,
     "not_applicable": [{"property_id": p, "reason": r} for p, r in sorted(NOT_APPLICABLE.items())],
